@@ -211,12 +211,12 @@ func (dt DateTime) Add(input Quantity) (DateTime, error) {
 	case "day", "days":
 		result = dt.dateTime.AddDate(0, 0, value)
 	default:
-		duration, err := input.timeDuration()
+		days, duration, err := input.timeDuration()
 		if err != nil {
 			return DateTime{}, err
 		}
 		duration = roundToDateTimePrecision(dateTimeMap[dt.l], duration)
-		result = dt.dateTime.Add(duration)
+		result = dt.dateTime.AddDate(0, 0, days).Add(duration)
 	}
 
 	// Reformat to truncate DateTime to initial precision, rounding down to
@@ -296,12 +296,12 @@ func (dt DateTime) Sub(input Quantity) (DateTime, error) {
 		result = dt.dateTime.AddDate(0, 0, value)
 	default:
 		// Get time valued duration, and round down to appropriate precision.
-		duration, err := input.timeDuration()
+		days, duration, err := input.timeDuration()
 		if err != nil {
 			return DateTime{}, err
 		}
 		duration = roundToDateTimePrecision(dateTimeMap[dt.l], duration)
-		result = dt.dateTime.Add(-duration)
+		result = dt.dateTime.AddDate(0, 0, -days).Add(-duration)
 	}
 	return DateTime{result, layoutWithFraction(result, dt.l)}, nil
 }
